@@ -413,10 +413,17 @@ RoundDiv(a, b) == (2 * a + b) \div (2 * b)              \* a/b rounded half away
 AbsInt(a) == IF a < 0 THEN -a ELSE a
 (* |fv/10^fl - nu/d| = Err(..) / (d * 10^fl) *)
 FErr(fv, fl, nu, d) == AbsInt(fv * d - nu * Pow10(fl))
+(* first pass over the denominators: <<bd, be>> with the smallest error be / (bd * p); second pass: all that tie *)
+RECURSIVE MinErr(_, _, _, _, _, _)
+MinErr(fv, p, d, dmax, bd, be) ==
+  IF d > dmax THEN <<bd, be>>
+  ELSE LET e == AbsInt(fv * d - RoundDiv(fv * d, p) * p)
+       IN  IF e * bd < be * d THEN MinErr(fv, p, d + 1, dmax, d, e) ELSE MinErr(fv, p, d + 1, dmax, bd, be)
 BestFracs(fv, fl, dmax) ==
-  LET cand == {<<RoundDiv(fv * d, Pow10(fl)), d>> : d \in 1..dmax}
-      best == {c \in cand : \A o \in cand : FErr(fv, fl, c[1], c[2]) * o[2] <= FErr(fv, fl, o[1], o[2]) * c[2]}
-  IN  {<<c[1] \div Gcd(c[1], c[2]), c[2] \div Gcd(c[1], c[2])>> : c \in best}
+  LET p  == Pow10(fl)
+      m  == MinErr(fv, p, 2, dmax, 1, AbsInt(fv - RoundDiv(fv, p) * p))
+      dset == {d \in 1..dmax : AbsInt(fv * d - RoundDiv(fv * d, p) * p) * m[1] = m[2] * d}
+  IN  {LET nu == RoundDiv(fv * d, p) IN <<nu \div Gcd(nu, d), d \div Gcd(nu, d)>> : d \in dset}
 FracText(s, whole, nu, d) ==      \* one rendering, single blanks
   IF s.ip = <<>> THEN DigitChars(DigitsOf(whole * d + nu)) \o <<"/">> \o DigitChars(DigitsOf(d))
   ELSE IF nu = 0 THEN DigitChars(DigitsOf(whole))
@@ -441,8 +448,9 @@ ImplFracChars(s, v) ==
 FracInContract(s, m) == Len(m.int) <= 4 /\ Len(m.frac) <= 5
 RenderFrac(s, v, m, sign, D) ==      \* v: the value the pinned code passes on (signed for a single section)
   IF s.dfix # <<>> /\ KFracFix \in D THEN RenderNum([AsNum(s) EXCEPT !.fp = <<>>], m, sign, D)
-  ELSE IF s.dfix = <<>> /\ KFracNear \in D /\ ~(IsInteger(v) /\ ~IsNeg(v))
-  THEN sign \o Cs(ImplFracChars(s, v))
+  ELSE IF s.dfix = <<>> /\ KFracNear \in D
+  THEN (IF IsInteger(v) /\ ~IsNeg(v) THEN sign \o Cs(DigitChars(v.int))          \* (left as it is)
+        ELSE sign \o Cs(ImplFracChars(s, v)))
   ELSE LET whole == Val(m.int)
            fv    == Val(m.frac)
            fl    == Len(m.frac)
@@ -474,14 +482,14 @@ MinSerial == 61
 MaxSerial == 2958465
 MonthNames == <<"January", "February", "March", "April", "May", "June", "July", "August", "September", "October",
                 "November", "December">>
-MonthChars == << <<"J","a","n","u","a","r","y">>, <<"FF","e","b","r","u","a","r","y">>, <<"M","a","r","c","h">>,
+MonthChars == << <<"J","a","n","u","a","r","y">>, <<"F","e","b","r","u","a","r","y">>, <<"M","a","r","c","h">>,
                  <<"A","p","r","i","l">>, <<"M","a","y">>, <<"J","u","n","e">>, <<"J","u","l","y">>,
                  <<"A","u","g","u","s","t">>, <<"S","e","p","t","e","m","b","e","r">>, <<"O","c","t","o","b","e","r">>,
                  <<"N","o","v","e","m","b","e","r">>, <<"D","e","c","e","m","b","e","r">> >>
 (* serial % 7: 0 Saturday .. 6 Friday *)
 DayChars == << <<"S","a","t","u","r","d","a","y">>, <<"S","u","n","d","a","y">>, <<"M","o","n","d","a","y">>,
                <<"T","u","e","s","d","a","y">>, <<"W","e","d","n","e","s","d","a","y">>,
-               <<"T","h","u","r","s","d","a","y">>, <<"FF","r","i","d","a","y">> >>
+               <<"T","h","u","r","s","d","a","y">>, <<"F","r","i","d","a","y">> >>
 (* seconds of the day, rounded to the nearest second (may be 86400) *)
 SecsOfFrac(f) ==
   IF f = <<>> THEN 0
@@ -518,9 +526,8 @@ UsesCalendar(s) == \E i \in DOMAIN s.pre : s.pre[i].t = "d" /\ TokName(s.pre[i])
                       (IF IsMinutes(s.pre, i) THEN {} ELSE {"m", "mm"})
 HasElapsed(s) == \E i \in DOMAIN s.pre : s.pre[i].t = "el"
 DateInContract(s, m) ==
-  /\ Len(m.int) <= 7 /\ Len(m.frac) <= 10
-  /\ IF UsesCalendar(s) \/ (\E i \in DOMAIN s.pre : TokName(s.pre[i]) \in {"m", "mm"} /\ IsTok(s.pre[i]))
-     THEN Val(m.int) \in MinSerial..(MaxSerial - 1) ELSE Val(m.int) < 20000
+  /\ Len(m.int) <= 7 /\ Len(m.frac) <= 10 /\ Val(m.int) < MaxSerial
+  /\ (UsesCalendar(s) \/ \E i \in DOMAIN s.pre : IsTok(s.pre[i]) /\ TokName(s.pre[i]) \in {"m", "mm"}) => Val(m.int) >= MinSerial
   /\ HasElapsed(s) => Val(m.int) < 20000
 Hour12(h) == IF h % 12 = 0 THEN 12 ELSE h % 12
 TokCells(items, i, m, D) ==
@@ -538,7 +545,7 @@ TokCells(items, i, m, D) ==
            THEN (IF KElH \in D THEN Cs(NumChars(MulRec(m, 24))) ELSE Cs(NumCh(c.day * 24 + hh)))
            ELSE IF KElMS \in D
            THEN Cs(<<"[">> \o (CASE nm = "m"  -> NumCh(dt[2])
-                                 [] nm = "mm" -> (IF ImplMinutes(items, i) THEN Pad2Chars(mi) ELSE Pad2Chars(dt[2]))
+                                 [] nm = "mm" -> Pad2Chars(dt[2])          \* (the bracket keeps it off the colon)
                                  [] nm = "s"  -> <<"s">>
                                  [] nm = "ss" -> Pad2Chars(ss)) \o <<"]">>)
            ELSE IF nm \in {"m", "mm"} THEN Cs(IF nm = "mm" /\ c.day * 1440 + c.sod \div 60 < 10
@@ -578,7 +585,8 @@ RenderLit(s) == ItemsCells(s.pre)
 FirstItem(s) == IF s.pre # <<>> THEN s.pre[1].t ELSE "ph"
 LastItem(s)  == IF s.post # <<>> THEN s.post[Len(s.post)].t
                 ELSE IF s.k \in {"date", "text", "lit"} THEN s.pre[Len(s.pre)].t ELSE "ph"
-QuotedBothEnds(s) == s.k # "date" /\ FirstItem(s) = "q" /\ LastItem(s) = "q"
+(* (a colour bracket next to a condition stays in the code the pinned code looks at: no quote at its start) *)
+QuotedBothEnds(s) == s.k # "date" /\ FirstItem(s) = "q" /\ LastItem(s) = "q" /\ ~(s.cop # <<>> /\ s.color # <<>>)
 (* section choice of the pinned code: a trailing text section counts as a numeric one *)
 ImplSectionOf(FF, v) ==
   IF Len(FF) = 2 THEN (IF IsNeg(v) THEN 2 ELSE 1)
@@ -625,32 +633,30 @@ Advance == \/ /\ (n + 1) % Block # 0 /\ n < Last
            \/ /\ fi < Len(Catalogue) /\ fi' = fi + 1 /\ UNCHANGED <<n, ds, sg>>
            \/ /\ ~sg /\ sg' = TRUE /\ UNCHANGED <<n, ds, fi>>
 
-(* one action per rendering rule: a step is named after the rules its target pair exercises *)
-RPositive   == Advance /\ ~HasCond(CurF') /\ NSec(CurF') >= 2 /\ SectionOf(CurF', CurV') = 1
-RNegative   == Advance /\ ~HasCond(CurF') /\ NSec(CurF') >= 2 /\ SectionOf(CurF', CurV') = 2
-RZero       == Advance /\ ~HasCond(CurF') /\ NSec(CurF') = 3 /\ SectionOf(CurF', CurV') = 3
-RAutoSign   == Advance /\ ~HasCond(CurF') /\ NSec(CurF') = 1 /\ IsNeg(CurV')
-RCondFirst  == Advance /\ HasCond(CurF') /\ SectionOf(CurF', CurV') = 1
-RCondSecond == Advance /\ HasCond(CurF') /\ NSec(CurF') = 3 /\ SectionOf(CurF', CurV') = 2
-RCondElse   == Advance /\ HasCond(CurF') /\ SectionOf(CurF', CurV') = NSec(CurF')
-RPadInt     == Advance /\ CurS'.k = "num" /\ Len(IntDigits(CurBody')) < Len(CurS'.ip)
-RWideInt    == Advance /\ CurS'.k = "num" /\ Len(IntDigits(CurBody')) > Len(CurS'.ip)
-RDropFrac   == Advance /\ CurS'.k = "num" /\ Len(FracChars(CurS'.fp, CurBody'.frac)) < Len(CurS'.fp)
-RBlankFrac  == Advance /\ CurS'.k = "num" /\ (\E i \in DOMAIN FracChars(CurS'.fp, CurBody'.frac) :
-                                                 FracChars(CurS'.fp, CurBody'.frac)[i] = " ")
-RScale      == Advance /\ CurS'.k = "num" /\ CurS'.sc > 0 /\ ~IsZero(CurBody')
-RPercent    == Advance /\ CurS'.k = "num" /\ HasPct(CurS')
-RGroup      == Advance /\ CurS'.k = "num" /\ CurS'.grp /\ Len(CurBody'.int) > 3
-RLiteral    == Advance /\ CurS'.k \in {"num", "lit"} /\ Items(CurS') # <<>>
-RSci        == Advance /\ CurS'.k = "sci" /\ ~IsZero(CurV')
-RSciCarry   == Advance /\ CurS'.k = "sci" /\ ~IsZero(CurV')
-                       /\ SciParts(CurS', Abs(CurV')).e # Len(CurS'.ip) * FloorDiv(E0(Abs(CurV')), Len(CurS'.ip))
-RSciNegExp  == Advance /\ CurS'.k = "sci" /\ ~IsZero(CurV') /\ SciParts(CurS', Abs(CurV')).e < 0
-RFrac       == Advance /\ CurS'.k = "frac" /\ CurS'.dfix = <<>>
-RFracCarry  == Advance /\ CurS'.k = "frac" /\ CurS'.dfix = <<>> /\ CurS'.ip # <<>> /\ ~IsInteger(CurV')
-                       /\ \E c \in BestFracs(Val(Abs(CurV').frac), Len(Abs(CurV').frac), Dmax(CurS')) : c[1] = c[2]
-RFracFix    == Advance /\ CurS'.k = "frac" /\ CurS'.dfix # <<>>
-RDate       == Advance /\ CurS'.k = "date"
+(* one action per rendering rule: a step is named after the rules the pair it leaves exercises (every pair but the
+   last of a block is left) *)
+RPositive   == (~HasCond(CurF) /\ NSec(CurF) >= 2 /\ SectionOf(CurF, CurV) = 1) /\ Advance
+RNegative   == (~HasCond(CurF) /\ NSec(CurF) >= 2 /\ SectionOf(CurF, CurV) = 2) /\ Advance
+RZero       == (~HasCond(CurF) /\ NSec(CurF) = 3 /\ SectionOf(CurF, CurV) = 3) /\ Advance
+RAutoSign   == (~HasCond(CurF) /\ NSec(CurF) = 1 /\ IsNeg(CurV)) /\ Advance
+RCondFirst  == (HasCond(CurF) /\ SectionOf(CurF, CurV) = 1) /\ Advance
+RCondSecond == (HasCond(CurF) /\ NSec(CurF) = 3 /\ SectionOf(CurF, CurV) = 2) /\ Advance
+RCondElse   == (HasCond(CurF) /\ SectionOf(CurF, CurV) = NSec(CurF)) /\ Advance
+RPadInt     == (CurS.k = "num" /\ Len(IntDigits(CurBody)) < Len(CurS.ip)) /\ Advance
+RWideInt    == (CurS.k = "num" /\ Len(IntDigits(CurBody)) > Len(CurS.ip)) /\ Advance
+RDropFrac   == (CurS.k = "num" /\ Len(FracChars(CurS.fp, CurBody.frac)) < Len(CurS.fp)) /\ Advance
+RBlankFrac  == (CurS.k = "num" /\ (\E i \in DOMAIN FracChars(CurS.fp, CurBody.frac) : FracChars(CurS.fp, CurBody.frac)[i] = " ")) /\ Advance
+RScale      == (CurS.k = "num" /\ CurS.sc > 0 /\ ~IsZero(CurBody)) /\ Advance
+RPercent    == (CurS.k = "num" /\ HasPct(CurS)) /\ Advance
+RGroup      == (CurS.k = "num" /\ CurS.grp /\ Len(CurBody.int) > 3) /\ Advance
+RLiteral    == (CurS.k \in {"num", "lit"} /\ Items(CurS) # <<>>) /\ Advance
+RSci        == (CurS.k = "sci" /\ ~IsZero(CurV)) /\ Advance
+RSciCarry   == (CurS.k = "sci" /\ ~IsZero(CurV) /\ SciParts(CurS, Abs(CurV)).e # Len(CurS.ip) * FloorDiv(E0(Abs(CurV)), Len(CurS.ip))) /\ Advance
+RSciNegExp  == (CurS.k = "sci" /\ ~IsZero(CurV) /\ SciParts(CurS, Abs(CurV)).e < 0) /\ Advance
+RFrac       == (CurS.k = "frac" /\ CurS.dfix = <<>>) /\ Advance
+RFracCarry  == (CurS.k = "frac" /\ CurS.dfix = <<>> /\ CurS.ip # <<>> /\ ~IsInteger(CurV) /\ \E c \in BestFracs(Val(Abs(CurV).frac), Len(Abs(CurV).frac), Dmax(CurS)) : c[1] = c[2]) /\ Advance
+RFracFix    == (CurS.k = "frac" /\ CurS.dfix # <<>>) /\ Advance
+RDate       == (CurS.k = "date") /\ Advance
 Next2 == \/ RPositive \/ RNegative \/ RZero \/ RAutoSign \/ RCondFirst \/ RCondSecond \/ RCondElse
          \/ RPadInt \/ RWideInt \/ RDropFrac \/ RBlankFrac \/ RScale \/ RPercent \/ RGroup \/ RLiteral
          \/ RSci \/ RSciCarry \/ RSciNegExp \/ RFrac \/ RFracCarry \/ RFracFix \/ RDate
@@ -721,10 +727,10 @@ LiteralsKept ==
 (* P1: a section chosen by position renders the magnitude - the same text as |v| under that section alone - and
    an automatic minus appears exactly for negative numbers under a single numeric section *)
 NegByPosition ==
-  (~HasCond(CurF) /\ NSec(CurF) >= 2 /\ IsNeg(CurV)) =>
+  (~HasCond(CurF) /\ NSec(CurF) >= 2 /\ IsNeg(CurV) /\ CurS.k # "date") =>
      OutC = Canon(RenderNumber(<<CurS>>, Abs(CurV), {}).cells)
 AutoMinus ==
-  (~HasCond(CurF) /\ NSec(CurF) = 1 /\ IsNeg(CurV)) =>
+  (~HasCond(CurF) /\ NSec(CurF) = 1 /\ IsNeg(CurV) /\ CurS.k # "date") =>
      OutC = <<"-">> \o Canon(RenderNumber(CurF, Abs(CurV), {}).cells)
 
 (* P4: |v| = mantissa * 10^e within half a unit of the last mantissa place; e a multiple of the number of integer
